@@ -336,6 +336,8 @@ def main():
                        "numpy.linalg.eig/inv inside get_PropagationMatrix are oracles: only the result is compared with expm (1e-9)",
                        "float64 arithmetic on small integers is exact (histories); propagation compared within 1e-11 with the model over Q"]
     chk.prove()
+    import translate
+    translate.static_tie(cm, chk, PID, cm.REPO)      # second, static tie: model regenerated from the current source
     if args.replay:
         rep = json.load(open(args.replay))
         cases = [rep["input"]] if isinstance(rep.get("input"), dict) and "kind" in rep["input"] else []
